@@ -571,6 +571,66 @@ def anytrait_cells(ctx):
             **case)
     else:
         ctx.outcome("object-collected")
+    # 4. a plain-function handler that refers to the object it is registered
+    # on: a reference cycle through the notifier list, which the collector
+    # must be able to see (registration still in place)
+    for mech in ("observe", "on_trait_change"):
+        case = {"anytrait": "closure-cycle", "mech": mech}
+        ctx.case(case)
+        ctx.ev()
+        ctx.tr()
+        o = A()
+        r = weakref.ref(o)
+
+        def mk(obj):
+            def hh(*args):
+                return obj
+            return hh
+        if mech == "observe":
+            o.observe(mk(o), "v")
+        else:
+            o.on_trait_change(mk(o), "v")
+        o.v = 1
+        del o
+        gc.collect()
+        if r() is not None:
+            ctx.violation("C09:lifetime:closure-cycle:%s" % mech,
+                          "an object whose %s handler is a closure over the "
+                          "object itself is never collected" % mech, **case)
+        else:
+            ctx.outcome("object-collected")
+    # 5. a handler that raises all the way to the caller of the assignment
+    from traits.observation.api import (pop_exception_handler,
+                                        push_exception_handler)
+    case = {"anytrait": "raising-handler-lifetime"}
+    ctx.case(case)
+    ctx.ev()
+    ctx.tr()
+    o = A()
+    r = weakref.ref(o)
+
+    def boom(ev):
+        raise ValueError("handler fails")
+    o.observe(boom, "v")
+    push_exception_handler(reraise_exceptions=True)
+    try:
+        for i in range(3):
+            try:
+                o.v = i + 1
+            except ValueError:
+                pass
+    finally:
+        pop_exception_handler()
+    o.observe(boom, "v", remove=True)
+    del o
+    gc.collect()
+    if r() is not None:
+        ctx.violation("C09:lifetime:raising-handler",
+                      "after changes whose handler raised to the caller, and "
+                      "removal of the handler, the object is never collected",
+                      **case)
+    else:
+        ctx.outcome("object-collected")
 
 
 def shards(tier):
